@@ -588,3 +588,14 @@ package db
 //@   assert before call#1 RunSelection: arg2 == res(ToSelect, 1, 0)
 //@   modifies failed
 //@   tags C03
+//@
+//@ // ===== C11: a node that is given several keys keeps each of them: the key block decoded for one item is a
+//@ // fresh object of that iteration, not one an earlier iteration already put into the table
+//@ // the key request is an event of its own name (internal/encryption/event.go), not a document update
+//@ extern encryption.NewRequestKeysMessage(keys) -> (msg, res)
+//@   ensures msg.Name == encryption.RequestKeysEventName
+//@   nodefault
+//@ func (*mergeProcessor).tryFetchMissingBlocksAndMerge
+//@   assert before call#1 Unmarshal: iterfresh(arg0)
+//@   tags C11
+//@ apply ErrFlow: (*mergeProcessor).tryFetchMissingBlocksAndMerge
